@@ -45,9 +45,11 @@ ASSUMPTIONS = [
     "binary operations between two *different* typed inputs (a + other, channel-wise cat with another batch) are outside the "
     "vocabulary: the statement does not say whose grid a mixed entry should carry; `other` is used for dim-0 cat/stack/append",
     "C19_aligned_partial covers the operation classes of `goodOp` (Proofs/Dispatch.lean; listed in the docstring of the "
-    "theorem); the classes with a `_refuted` theorem are replayed on the implementation (stream witnesses); negative dim "
-    "literals, stack, tensor_split(int), expand/repeat/reshape/squeeze/unsqueeze, permute/transpose of non-batch dims, "
-    "padding, full reductions, index tuples with an ellipsis and collate are covered by correspondence + oracle only",
+    "theorem, incl. the classes repaired in /repo by 31c6369, a040c96, e158d15, e37fd36); the classes with a `_refuted` "
+    "theorem and the former witnesses of the repaired defects are replayed on the implementation (stream witnesses); "
+    "negative dim literals, stack, tensor_split(int), expand/repeat/reshape/squeeze/unsqueeze, permute/transpose of "
+    "non-batch dims, padding, dim-0 and full reductions, index tuples with an ellipsis and collate are covered by "
+    "C19_demote (count/shape) + correspondence + oracle only",
     "F-05 (ImageBatch.sample(one Grid) on N>1) is not a tensor operation of the C19 quantifier and is left to C04/C05",
 ]
 TRUSTED = [
@@ -1166,47 +1168,44 @@ def line_torchsem(case):
 
 
 # =============================================================================== refutation witnesses (Props/C19.lean)
+_B2 = {"kind": "B", "flow": False, "n": 2, "c": 1, "spatial": [2, 2], "base": 0, "axes": 0}
+_B3 = dict(_B2, n=3)
+_F3 = {"kind": "B", "flow": True, "n": 3, "c": 2, "spatial": [2, 2], "base": 0, "axes": 1}
+_F2 = dict(_F3, n=2)
+_F1 = dict(_F3, n=1)
+
 WITNESSES = [
-    # (name, case, expected finding key)
-    ("flip_dim0", {"input": {"kind": "B", "flow": False, "n": 2, "c": 1, "spatial": [2, 2], "base": 0, "axes": 0}, "other": None,
-                   "ops": [{"op": "flip", "dims": [0]}]}, "C19:torch.flip:dim0"),
-    ("roll_dim0", {"input": {"kind": "B", "flow": False, "n": 2, "c": 1, "spatial": [2, 2], "base": 0, "axes": 0}, "other": None,
-                   "ops": [{"op": "roll", "shift": 1, "dim": 0}]}, "C19:torch.roll:dim0"),
-    ("index_select_perm", {"input": {"kind": "B", "flow": False, "n": 2, "c": 1, "spatial": [2, 2], "base": 0, "axes": 0}, "other": None,
-                           "ops": [{"op": "isel", "dim": 0, "idx": [1, 0]}]}, "C19:index_select:dim0-perm"),
-    ("split_sections", {"input": {"kind": "B", "flow": False, "n": 3, "c": 1, "spatial": [2, 2], "base": 0, "axes": 0}, "other": None,
-                        "ops": [{"op": "splitl", "l": [1, 2], "dimform": "d"}]}, "C19:split:sections-list"),
-    ("split_with_sizes", {"input": {"kind": "B", "flow": False, "n": 3, "c": 1, "spatial": [2, 2], "base": 0, "axes": 0}, "other": None,
-                          "ops": [{"op": "splitws", "l": [1, 2], "dimform": "d"}]}, "C19:split_with_sizes:sections-list"),
-    ("bool_mask", {"input": {"kind": "B", "flow": False, "n": 3, "c": 1, "spatial": [2, 2], "base": 0, "axes": 0}, "other": None,
-                   "ops": [_single({"k": "mask", "v": [True, False, True]})]}, "C19:getitem:bool-mask"),
-    ("ellipsis", {"input": {"kind": "B", "flow": False, "n": 2, "c": 1, "spatial": [2, 2], "base": 0, "axes": 0}, "other": None,
-                  "ops": [_single({"k": "ell"})]}, "C19:getitem:ellipsis"),
-    ("narrow_method", {"input": {"kind": "B", "flow": False, "n": 2, "c": 1, "spatial": [2, 2], "base": 0, "axes": 0}, "other": None,
-                       "ops": [{"op": "narrowm", "dim": 0, "start": 1, "len": 1}]}, "C19:narrow:method"),
-    ("permute_batch_channel", {"input": {"kind": "B", "flow": False, "n": 2, "c": 2, "spatial": [2, 2], "base": 0, "axes": 0}, "other": None,
-                               "ops": [{"op": "transpose", "d0": 0, "d1": 1}]}, "C19:permute:batch-moved"),
-    ("flow_index_select", {"input": {"kind": "B", "flow": True, "n": 3, "c": 2, "spatial": [2, 2], "base": 0, "axes": 1}, "other": None,
-                           "ops": [{"op": "isel", "dim": 0, "idx": [2, 0]}]}, "C19:FlowFields:result-no-batch-check"),
-    ("flow_mean_keepdim", {"input": {"kind": "B", "flow": True, "n": 3, "c": 2, "spatial": [2, 2], "base": 0, "axes": 1}, "other": None,
-                           "ops": [{"op": "reduce", "fn": "mean", "all": False, "dims": [0], "keepdim": True}]}, "C19:FlowFields:result-no-batch-check"),
-    ("flow_torch_narrow", {"input": {"kind": "B", "flow": True, "n": 3, "c": 2, "spatial": [2, 2], "base": 0, "axes": 1}, "other": None,
-                           "ops": [{"op": "narrowf", "dim": 0, "start": 1, "len": 2}]}, "C19:FlowFields:result-no-batch-check"),
-    ("flow_repeat", {"input": {"kind": "B", "flow": True, "n": 2, "c": 2, "spatial": [2, 2], "base": 0, "axes": 1}, "other": None,
-                     "ops": [{"op": "repeat", "reps": [2, 1, 1, 1]}]}, "C19:FlowFields:result-no-batch-check"),
-    ("flow_expand", {"input": {"kind": "B", "flow": True, "n": 1, "c": 2, "spatial": [2, 2], "base": 0, "axes": 1}, "other": None,
-                     "ops": [{"op": "expand", "sizes": [3, -1, -1, -1]}]}, "C19:FlowFields:result-no-batch-check"),
-    ("flow_cat_negdim", {"input": {"kind": "B", "flow": True, "n": 2, "c": 2, "spatial": [2, 2], "base": 0, "axes": 1}, "other": None,
-                         "ops": [{"op": "cat", "ops": "cc", "dimform": "k", "dim": -4}]}, "C19:FlowFields:result-no-batch-check"),
-    ("flow_copy", {"input": {"kind": "B", "flow": True, "n": 2, "c": 2, "spatial": [2, 2], "base": 0, "axes": 1}, "other": None,
-                   "ops": [{"op": "copy"}]}, "C19:copy:flow-raises"),
+    # (name, case, expected finding key; None = must hold: witness of a defect repaired by a fix: commit in /repo,
+    #  kept as a regression case — the positive theorem of Props/C19.lean covers its class)
+    ("flip_dim0", {"input": _B2, "other": None, "ops": [{"op": "flip", "dims": [0]}]}, "C19:torch.flip:dim0"),
+    ("roll_dim0", {"input": _B2, "other": None, "ops": [{"op": "roll", "shift": 1, "dim": 0}]}, "C19:torch.roll:dim0"),
+    ("index_select_perm", {"input": _B2, "other": None, "ops": [{"op": "isel", "dim": 0, "idx": [1, 0]}]},
+     "C19:index_select:dim0-perm"),
+    ("permute_batch_channel", {"input": dict(_B2, c=2), "other": None, "ops": [{"op": "transpose", "d0": 0, "d1": 1}]},
+     "C19:permute:batch-moved"),
+    ("narrow_method_negdim", {"input": _B2, "other": None, "ops": [{"op": "narrowm", "dim": -4, "start": 1, "len": 1}]},
+     "C19:narrow:method:negative-dim"),
+    ("flow_copy", {"input": _F2, "other": None, "ops": [{"op": "copy"}]}, "C19:copy:flow-raises"),
     ("flowfield_copy", {"input": {"kind": "I", "flow": True, "c": 2, "spatial": [2, 2], "id": 0, "axes": 1}, "other": None,
                         "ops": [{"op": "copy"}]}, "C19:copy:flow-raises"),
-    ("from_images_axes", {"input": {"kind": "B", "flow": True, "n": 2, "c": 2, "spatial": [2, 2], "base": 0, "axes": 1}, "other": None,
-                          "ops": [{"op": "iter"}, {"op": "fromimages"}]}, "C19:from_images:axes-dropped"),
-    ("append_axes", {"input": {"kind": "B", "flow": True, "n": 1, "c": 2, "spatial": [2, 2], "base": 0, "axes": 1},
-                     "other": {"kind": "B", "flow": True, "n": 1, "c": 2, "spatial": [2, 2], "base": 10, "axes": 2},
-                     "ops": [{"op": "append"}]}, "C19:append:axes-mismatch"),
+    ("from_images_axes", {"input": _F2, "other": None, "ops": [{"op": "iter"}, {"op": "fromimages"}]},
+     "C19:from_images:axes-dropped"),
+    ("append_axes", {"input": _F1, "other": dict(_F1, base=10, axes=2), "ops": [{"op": "append"}]}, "C19:append:axes-mismatch"),
+    # repaired (31c6369, a040c96, e158d15, e37fd36)
+    ("split_sections", {"input": _B3, "other": None, "ops": [{"op": "splitl", "l": [1, 2], "dimform": "d"}]}, None),
+    ("split_with_sizes", {"input": _B3, "other": None, "ops": [{"op": "splitws", "l": [1, 2], "dimform": "d"}]}, None),
+    ("bool_mask", {"input": _B3, "other": None, "ops": [_single({"k": "mask", "v": [True, False, True]})]}, None),
+    ("bool_mask_list", {"input": _B3, "other": None, "ops": [_single({"k": "mask", "v": [False, True, True], "as": "list"})]}, None),
+    ("ellipsis", {"input": _B2, "other": None, "ops": [_single({"k": "ell"})]}, None),
+    ("narrow_method", {"input": _B2, "other": None, "ops": [{"op": "narrowm", "dim": 0, "start": 1, "len": 1}]}, None),
+    ("narrow_method_spatial", {"input": _B2, "other": None, "ops": [{"op": "narrowm", "dim": 3, "start": 1, "len": 1}]}, None),
+    ("flow_index_select", {"input": _F3, "other": None, "ops": [{"op": "isel", "dim": 0, "idx": [2, 0]}]}, None),
+    ("flow_mean_keepdim", {"input": _F3, "other": None,
+                           "ops": [{"op": "reduce", "fn": "mean", "all": False, "dims": [0], "keepdim": True}]}, None),
+    ("flow_torch_narrow", {"input": _F3, "other": None, "ops": [{"op": "narrowf", "dim": 0, "start": 1, "len": 2}]}, None),
+    ("flow_repeat", {"input": _F2, "other": None, "ops": [{"op": "repeat", "reps": [2, 1, 1, 1]}]}, None),
+    ("flow_expand", {"input": _F1, "other": None, "ops": [{"op": "expand", "sizes": [3, -1, -1, -1]}]}, None),
+    ("flow_cat_negdim", {"input": _F2, "other": None, "ops": [{"op": "cat", "ops": "cc", "dimform": "k", "dim": -4}]}, None),
 ]
 
 
@@ -1237,7 +1236,7 @@ def op_class(op: dict, nd: int) -> str:
     if n == "narrowf":
         return "torch.narrow:" + dimpart()
     if n == "narrowm":
-        return "narrow:method"
+        return "narrow:method:negative-dim" if op["dim"] < 0 else "narrow:method"
     if n == "select":
         return "select"
     if n in ("permute", "transpose"):
@@ -1281,6 +1280,7 @@ NAMED = {
     ("getitem:bool-mask", "count"): "C19:getitem:bool-mask",
     ("getitem:ellipsis", "order"): "C19:getitem:ellipsis",
     ("narrow:method", "order"): "C19:narrow:method",
+    ("narrow:method:negative-dim", "count"): "C19:narrow:method:negative-dim",
     ("permute", "mixed"): "C19:permute:batch-moved",
     ("fromimages", "axes"): "C19:from_images:axes-dropped",
     ("append", "axes"): "C19:append:axes-mismatch",
@@ -1328,8 +1328,17 @@ def _check_typed(m, prov, expected_grid, axes_of) -> Optional[Tuple[str, str]]:
     return None
 
 
+def _same_data(a: torch.Tensor, b: torch.Tensor) -> bool:
+    """equal values, NaN (mean over an empty tensor) equal to NaN"""
+    if a.shape != b.shape or a.dtype != b.dtype:
+        return False
+    if a.is_floating_point():
+        return bool(((a == b) | (torch.isnan(a) & torch.isnan(b))).all())
+    return torch.equal(a, b)
+
+
 def _copy_preserved(before, after) -> bool:
-    return (type(after) is type(before) and torch.equal(tensor_of(after), tensor_of(before))
+    return (type(after) is type(before) and _same_data(tensor_of(after), tensor_of(before))
             and getattr(after, "_axes", None) == getattr(before, "_axes", None)
             and list(members(after._grid)) == list(members(before._grid)))
 
@@ -1416,7 +1425,8 @@ STREAMS = [
            doc="fixed table of single operations (every operation form of the vocabulary, all dim-argument forms, all index "
                "forms) x 10 inputs (ImageBatch/FlowFields N=1..4, 2-D/3-D, Image, FlowField): type, shape, grids, axes, provenance"),
     Stream("witnesses", gen_witnesses, impl_programs, line_programs, cmp_exact, exhaustive=True,
-           doc="the concrete witnesses of the *_refuted theorems replayed on the implementation"),
+           doc="the concrete witnesses of the *_refuted theorems replayed on the implementation, plus the former witnesses "
+               "of the defects repaired in /repo (regression cases; their classes are now in C19_aligned_partial)"),
     Stream("programs", gen_programs, impl_programs, line_programs, cmp_programs, nontrivial=nontrivial_program,
            doc="random programs (quick <=4, thorough <=8 operations) on typed inputs with distinct per-item grids; every "
                "intermediate result compared"),
